@@ -29,6 +29,68 @@ func init() { register("C14", c14) }
 func c14(c *evid.Ctx) {
 	c14queries(c)
 	c14traversals(c)
+	c14maintainer(c)
+}
+
+// c14maintainer: the table maintainer (bootstrap, maintenance pings, bucket refreshes) is started,
+// gets through part of its first pass against a simulated network, and the server is closed at a
+// PRNG-chosen moment; nothing of it may stay behind.
+func c14maintainer(c *evid.Ctx) {
+	r := c.R.Fork("maintainer")
+	runs := c.Scale(16, 640)
+	for run := 0; run < runs && c.NumViolations() < 20; run++ {
+		swarm := newSwarm(r.Fork("swarm"), 30, gen.Pick(r, []int{0, 20, 100}), r.Bool())
+		n, err := srv.New(dht.ServerConfig{NoSecurity: true, QueryResendDelay: func() time.Duration { return time.Millisecond },
+			StartingNodes: func() ([]dht.Addr, error) {
+				return []dht.Addr{dht.NewAddr(swarm.order[0].addr), dht.NewAddr(swarm.order[1].addr), dht.NewAddr(swarm.order[2].addr)}, nil
+			}})
+		if err != nil {
+			c.Inconclusive(err.Error())
+			return
+		}
+		n.Conn.SetHook(swarm.hook(n))
+		closeAt := int32(r.Range(1, 120))
+		closed := make(chan struct{})
+		var once sync.Once
+		cb := func(k int32) {
+			if k >= closeAt {
+				once.Do(func() {
+					n.S.Close()
+					close(closed)
+				})
+			}
+		}
+		swarm.onQuery.Store(&cb)
+		done := make(chan struct{})
+		go func() {
+			n.S.TableMaintainer()
+			close(done)
+		}()
+		select {
+		case <-closed:
+		case <-time.After(3 * time.Second):
+			// the first pass ended before the chosen point; close now (the maintainer sleeps between passes)
+			once.Do(func() {
+				n.S.Close()
+				close(closed)
+			})
+		}
+		desc := fmt.Sprintf("TableMaintainer over a network of 30 (run %d), server closed after query %d", run, closeAt)
+		select {
+		case <-done:
+			c.Count("table maintainer runs that returned after Close", 1)
+		case <-time.After(60 * time.Second):
+			c.Violation("traversal-does-not-return:table-maintainer", fmt.Sprintf("%s: TableMaintainer has not returned 60s after Close\n%s", desc, truncateS(census.Dump(census.Module(census.ServeLoop)), 6000)), nil)
+			n.Conn.Close()
+			return
+		}
+		n.Conn.Close()
+		c.Eval(1)
+		c.Distinct(gen.Hash64("maintainer", run, int(closeAt)))
+		if !leakCheck(c, desc, nil) {
+			return
+		}
+	}
 }
 
 // leakCheck: no library goroutine other than live serve loops may remain. Polls; declares a leak
